@@ -8,7 +8,7 @@ MT=${MT:-/tmp/mt}
 mkdir -p $MT
 [ -d $MT/verif ] || git -C /verif worktree add -q --detach $MT/verif HEAD
 [ -d $MT/repo ] || git -C /repo worktree add -q --detach $MT/repo HEAD
-git -C $MT/verif checkout -q -- . ; git -C $MT/verif checkout -q --detach $(git -C /verif rev-parse HEAD)
+git -C $MT/verif checkout -q -- . ; git -C $MT/verif clean -fdq ; git -C $MT/verif checkout -q --detach $(git -C /verif rev-parse HEAD) || { echo 'scratch verif checkout failed'; exit 2; }
 git -C $MT/repo checkout -q -- . ; git -C $MT/repo checkout -q --detach $(git -C /repo rev-parse HEAD)
 git -C $MT/repo apply $P || { echo "patch does not apply"; exit 2; }
 sed -i "s|/repo/crates|$MT/repo/crates|g" $MT/verif/harness/vmon/Cargo.toml
